@@ -35,6 +35,32 @@ type concProg struct {
 // a call that blocks forever poisons the process (its goroutines keep whatever they hold): after a hang no further program is run
 var concDead bool
 
+// a serialised three-opening multiproof (built once per process, before it is needed concurrently)
+var serdeOnce sync.Once
+var serdeBytes []byte
+
+func serdeProofBytes(cfg *ipa.IPAConfig) []byte {
+	serdeOnce.Do(func() {
+		rnd := newPrg("serde-proof")
+		fs := make([][]fr.Element, 3)
+		cs := make([]*banderwagon.Element, 3)
+		zs := []uint8{0, 77, 255}
+		for j := range fs {
+			fs[j] = polyClass("random", j, rnd)
+			c := cfg.Commit(fs[j])
+			cs[j] = &c
+		}
+		p, err := multiproof.CreateMultiProof(common.NewTranscript("serde"), cfg, cs, fs, zs)
+		if err != nil {
+			panic(err)
+		}
+		var buf bytes.Buffer
+		p.Write(&buf)
+		serdeBytes = buf.Bytes()
+	})
+	return serdeBytes
+}
+
 // one call of goroutine g, position i: deterministic in (seed, g, i); returns a digest of everything it returned
 func (d *driver) concCall(cfg *ipa.IPAConfig, op string, g, i int) []int {
 	rnd := newPrg("conc", d.seed, g, i, op)
@@ -217,6 +243,61 @@ func (d *driver) concCall(cfg *ipa.IPAConfig, op string, g, i int) []int {
 			b := cp[j].Bytes()
 			h.Write(b[:])
 		}
+	case "serde":
+		// (de)serialisation and every scalar decoder / printer: proofs read back from their bytes and written again, canonical and
+		// reducing scalar decoders, decimal strings, big integers above the modulus - the helpers that borrow pooled temporaries
+		pb := serdeProofBytes(cfg)
+		var mp multiproof.MultiProof
+		rerr := mp.Read(bytes.NewReader(pb))
+		var out bytes.Buffer
+		if rerr == nil {
+			mp.Write(&out)
+		}
+		h.Write(out.Bytes())
+		h.Write([]byte(fmt.Sprint(rerr == nil, bytes.Equal(out.Bytes(), pb))))
+		var ip ipa.IPAProof
+		ierr := ip.Read(bytes.NewReader(pb[32:]))
+		var out2 bytes.Buffer
+		if ierr == nil {
+			ip.Write(&out2)
+		}
+		h.Write(out2.Bytes())
+		for j := 0; j < 6; j++ {
+			v := rnd.big(300)
+			if j%2 == 0 {
+				v.Mod(v, modR)
+			}
+			le := make([]byte, 32)
+			vb := new(big.Int).Mod(v, two256).Bytes()
+			for t := range vb {
+				le[t] = vb[len(vb)-1-t]
+			}
+			var a, b2, c2, d2, e2 fr.Element
+			a.SetBytesLE(le)
+			b2.SetBytes(new(big.Int).Mod(v, two256).Bytes())
+			_, cerr := c2.SetBytesLECanonical(le)
+			d2.SetBigInt(v)
+			var serr error
+			func() {
+				defer func() {
+					if r := recover(); r != nil {
+						serr = fmt.Errorf("%v", r)
+					}
+				}()
+				e2.SetString(v.String())
+			}()
+			sc, rserr := common.ReadScalar(bytes.NewReader(le))
+			for _, x := range []*fr.Element{&a, &b2, &c2, &d2, &e2} {
+				xb := x.Bytes()
+				h.Write(xb[:])
+				h.Write([]byte(x.String()))
+			}
+			if rserr == nil {
+				xb := sc.Bytes()
+				h.Write(xb[:])
+			}
+			h.Write([]byte(fmt.Sprint(cerr == nil, serr == nil, rserr == nil)))
+		}
 	case "transcript":
 		tr := common.NewTranscript("conc-tr")
 		for j := 0; j < 5; j++ {
@@ -356,6 +437,9 @@ func (d *driver) runConcProgram(w emitter, pid int, line []byte) {
 			w.emit(ev{"ev": "concpanic", "prog": pid, "g": g, "panic": panics[g]})
 		}
 		for i := range p.Calls {
+			if conc[g][i] == nil { // never made: the goroutine panicked before (the concpanic event above is the deviation)
+				continue
+			}
 			w.emit(ev{"ev": "conc", "prog": pid, "g": g, "i": i, "op": p.Calls[(i+g)%len(p.Calls)], "k": K, "gomaxprocs": p.GMP, "envgmp": p.EnvGMP, "fresh": p.Fresh, "seq": seq[g][i], "conc": conc[g][i]})
 		}
 	}
